@@ -42,6 +42,9 @@
             QueryRequest::Ibc(q) => self.ibc.query_sem((st, block), st, block, q),
             QueryRequest::Stargate { path, data } => self.stargate.query_stargate_sem((st, block), st, block, path, data),
             QueryRequest::Grpc(q) => self.stargate.query_grpc_sem((st, block), st, block, q),
+            // the distribution module's query type is Empty: it cannot take a DistributionQuery; what the statement leaves
+            // room for is a failure the caller sees (the code panics instead: known finding, see DESIGN §6)
+            QueryRequest::Distribution(q) => Err(AnyError),
         }
     }
     open spec fn sudo_sem(&self, pre: St, block: BlockInfo, msg: SudoMsg) -> (AnyResult<AppResponse>, St) {
@@ -49,7 +52,9 @@
             SudoMsg::Wasm(m) => self.wasm.sudo_sem(self, pre, block, m),
             SudoMsg::Bank(m) => self.bank.sudo_sem(self, pre, block, m),
             SudoMsg::Staking(m) => self.staking.sudo_sem(self, pre, block, m),
-            SudoMsg::Custom(m) => arbitrary(),
+            // SudoMsg::Custom carries an Empty payload no configured module takes: what the statements leave room for is an
+            // error with the state unchanged (the code panics instead: known finding, see DESIGN §6)
+            SudoMsg::Custom(m) => (Err(AnyError), pre),
         }
     }
 //@ fn src/app.rs :: CosmosRouter for Router :: execute
@@ -64,7 +69,7 @@
 //@ end
 //@ fn src/app.rs :: CosmosRouter for Router :: sudo
 //@   ret r
-//@   ensures [C17.sudo.dispatch] (r, final(storage).view()) == self.sudo_sem(old(storage).view(), *block, msg)
+//@   ensures [C17.sudo.dispatch,C01] (r, final(storage).view()) == self.sudo_sem(old(storage).view(), *block, msg)
 //@ end
 }
 
@@ -176,7 +181,6 @@ pub proof fn lemma_run_msgs_one<E, Q, R: CosmosRouter<E, Q>>(router: R, s0: St, 
 //@ end
 //@ fn src/app.rs :: App :: sudo
 //@   ret r
-//@   requires [C01.sudo.pre] !(msg is Custom)
 //@   ensures [C01.sudo.sem,C02] (r, final(self).storage.view()) == commit_if_ok(old(self).router.sudo_sem(old(self).storage.view(), old(self).block, msg), old(self).storage.view())
 //@   ensures [C01.sudo.frame] final(self).block == old(self).block && final(self).router == old(self).router
 //@   replace_re? "\\|write_cache, (?P<U>_vx\\d+)\\| \\{" => "|write_cache: &mut dyn Storage, \\g<U>: &dyn Storage| -> (cr: AnyResult<AppResponse>) ensures (cr, final(write_cache).view()) == router.sudo_sem(old(write_cache).view(), *block, msg) {"
